@@ -3926,10 +3926,31 @@ func ruleFillAll(c *Ctx, r *Rep) {
 				continue
 			}
 			cmp, ok := iff.Cond.(*ssa.BinOp)
-			if !ok || cmp.Op != token.LSS {
+			if !ok {
 				continue
 			}
-			in, ok := lenOperand(cmp.Y)
+			var in ssa.Value
+			switch cmp.Op {
+			case token.LSS:
+				in, ok = lenOperand(cmp.Y)
+			case token.GEQ:
+				// the same list walked from its end: for i := len(in) - 1; i >= 0; i--
+				ok = false
+				if k, isK := cmp.Y.(*ssa.Const); isK && k.Value != nil && k.Int64() == 0 {
+					if phi, isPhi := cmp.X.(*ssa.Phi); isPhi && phi.Block() == h {
+						for pi, e := range phi.Edges {
+							if pi < len(h.Preds) && body[h.Preds[pi]] {
+								continue
+							}
+							if of, kk, okL := lenPlus(e); okL && kk == -1 {
+								in, ok = of, true
+							}
+						}
+					}
+				}
+			default:
+				ok = false
+			}
 			if !ok {
 				continue
 			}
